@@ -37,3 +37,14 @@ pub fn fmt_expr<C: crate::CellType>(e: &crate::ir::Expr<C>) -> String {
         .collect::<Vec<_>>()
         .join("+")
 }
+
+/// The facts of the optimizer's analysis that dead store elimination consumes, as a plain tree
+/// (one node per block, `subs` in the order of the block's loops and ifs).
+#[derive(Clone, Debug, PartialEq, Eq)]
+pub struct DseAnal {
+    pub at_most_once: bool,
+    pub at_least_once: bool,
+    pub has_shift: bool,
+    pub reads: Vec<isize>,
+    pub subs: Vec<DseAnal>,
+}
